@@ -47,15 +47,18 @@ chk("C15", "translation_validation",
     "The generated function together with the real deterministic_choice/deterministic_proba/bisect is executed "
     "symbolically over str/int/binary64/bool/None splitter values and several salts; every path ending in an exception "
     "is asked for feasibility (unsat = total); plus 0 <= position < 1 for all strings and equal keys for values that print identically.",
-    "Strings over Unicode scalar values up to U+2FFFF; ints below CPython's 4300-digit str() limit; concrete salt list.",
+    "Strings over Unicode scalar values up to U+2FFFF; str(int) modelled with CPython's 4300-digit limit (ints beyond it: recorded "
+    "finding int-str-limit); concrete salt list.",
     "symbolic execution (pysym) + z3 QF_FP/strings: infeasibility of every exception path", "DESIGN.md section 6 C15")
 
 chk("C03", "translation_validation",
     "deterministic_choice and CPython's bisect are executed from source for each weight vector of a family with a symbolic "
     "32-bit hash position and bit-precise binary64 arithmetic; z3 decides per leaf that no position outside the exact "
     "rational share (one grid point tolerance) selects the group, that zero-weight groups are unreachable, that u=0 selects "
-    "the first positive group and that groups spanning >= 3 grid points are selectable; population/weights alignment per program.",
-    "Concrete weight vectors (family up to 64 groups, 1e-9..1e9), all 2^32 positions each; symbolic weights out of reach "
+    "the first positive group and that groups spanning >= 3 grid points are selectable; per alignment program the arguments the "
+    "generated code hands to the choice function select, for all positions, inside the declared partition.",
+    "Concrete weight vectors (family up to 64 groups, 1e-9..1e9, plus sizes around every group-count threshold read off the "
+    "implementation), all 2^32 positions each; symbolic integer weights < 2^16 for n <= 4/8; symbolic float weights out of reach "
     "(symbolic x symbolic fp.mul); bisect.py stands for the C accelerator; hash grid by lemma L1 (also run here).",
     "symbolic execution (pysym) + z3 QF_FP/BV per leaf", "DESIGN.md section 6 C03")
 
@@ -63,7 +66,7 @@ chk("C10", "translation_validation",
     "(i) key lemmas: the hashed string is the same scheme key in every branch and the choice function hashes exactly its "
     "input_id; (ii) for ordered pairs of weight vectors z3 decides, bit-precisely and for all 2^32 positions, that no unit is "
     "assigned a later group under the second vector.",
-    "Pairs from a finite family (percentage/decimal ramps, scaled, n<=3 alphabet pairs, long ramps).",
+    "Pairs from a finite family (percentage/decimal ramps, scaled, n<=3 alphabet pairs, long ramps, sizes around code-derived thresholds).",
     "symbolic execution (pysym) + z3 QF_FP/BV on pairs of path conditions sharing k", "DESIGN.md section 6 C10")
 
 chk("C11", "model_checking",
@@ -71,15 +74,18 @@ chk("C11", "model_checking",
     "the representation invariant, with a symbolic new text and an abstract compile outcome; z3 decides per path that the "
     "post-state is (new checksum, new function) on success and the unchanged pre-state on failure, that failure raises, that "
     "the unchanged text is a no-op and that nothing outside self is written.",
-    "MD5 collision-free on texts; compile step abstracted into four outcomes; induction over histories argued in DESIGN.md.",
+    "The stored checksum is discovered as a term D(text); collision-freeness assumed for the digest's argument; compile step abstracted "
+    "into four outcomes; extra per-instance state: invariant strengthened to 'any value' and re-checked, else a bounded history search "
+    "(incl. round trips over 39 confusable texts) as replay; induction over histories argued in DESIGN.md.",
     "symbolic execution (pysym) of the evaluator class + z3 EUF/BV, inductive step", "DESIGN.md section 6 C11")
 
 chk("C16", "translation_validation",
     "Obligations (a)-(f) of the random.choices-style contract as solver queries over symbolic executions of "
     "deterministic_choice (and CPython's random.choices from source): index range, no argument mutation (effect tracking), "
     "weights vs cum_weights, no weights vs equal weights per n, error partition incl. symbolic totals, forwarding for "
-    "input_id=None and no zero-weight draw.",
-    "Population sizes and weight vectors from finite lists (n up to 2^20+1 for the range obligation); all 2^32 positions each.",
+    "input_id=None, no zero-weight draw, and no draw at all when an id (any str, also '') is given.",
+    "Population sizes and weight vectors from finite lists (n up to 2^20+1 for the range obligation, plus sizes around code-derived "
+    "thresholds); all 2^32 positions each.",
     "symbolic execution (pysym) + z3 QF_FP/BV", "DESIGN.md section 6 C16")
 
 chk("C18", "translation_validation",
@@ -100,16 +106,18 @@ chk("C01", "translation_validation",
 
 chk("C06", "model_checking",
     "Unbounded one-step lexer lemmas over the live rule patterns as single regular-membership queries (LX-REJECT, LX-ONLY), "
-    "pysym on error()/parse_source for the handlers, bounded CFG inclusion L(G_impl) in L(G_ref) by CYK circuits (SAT), "
+    "pysym on error() for the handlers, PS-GLUE (parse_source hands text/tokens/result through unchanged, lets errors out, rejects an "
+    "unterminated comment, leaves no lexer state behind) and LX-DRIVER (the vendored sly tokenizer loop applies the master pattern to "
+    "its own text position by position), bounded CFG inclusion L(G_impl) in L(G_ref) by CYK circuits (SAT), "
     "PARSE-ABSORB by symbolic execution of the LR driver's error branch, evaluator step from C11.",
-    "Token sequences <= K (18 quick / 24 thorough); sly table construction/driver trusted between lexer and grammar "
+    "Token sequences <= K (18 quick / 24 thorough); sly's LexerMeta and LALR table construction trusted "
     "(validated on solver-generated near-misses); reference lexer/grammar are our reading of the documentation.",
     "z3 regex/sequence theory (one-step lemmas) + SAT CYK circuits + pysym", "DESIGN.md section 6 C06")
 
 chk("C07", "translation_validation",
     "LX-ACCEPT for every token class over all lexemes/contexts (z3 regex), L(G_ref) in L(G_impl) up to K tokens (CYK/SAT), "
     "solver-generated sentences through the real pipeline, and per program of an extended family the symbolic execution of "
-    "the generated function ends only in a group or the unroutable error for all type-compatible inputs.",
+    "the generated function ends only in a group or the unroutable error for all type-compatible inputs; PS-GLUE and LX-DRIVER as in C06.",
     "Identifier pool for code generation (lexical part covers all identifiers); K tokens; known findings: Python reserved "
     "words and helper names as identifiers.",
     "z3 regex lemmas + SAT CYK circuits + symbolic execution (pysym) per program", "DESIGN.md section 6 C07")
@@ -117,7 +125,8 @@ chk("C07", "translation_validation",
 chk("C08", "model_checking",
     "Unbounded one-step lemmas for whitespace, line comments and the block-comment state (opener, chunk, first-close), "
     "LX-ACCEPT in every right context and LX-ONLY for ignore rules, each one z3 regular-membership query over the live "
-    "patterns; trivia variants of family programs validated through the real parser.",
+    "patterns; PS-GLUE and LX-DRIVER tie the lemmas to parse_source and to the vendored tokenizer loop; trivia variants of family "
+    "programs validated through the real parser.",
     "Induction over lexer steps argued in DESIGN.md (not machine-checked); marker code point U+E000 excluded from texts.",
     "z3 regex/sequence theory, marker encoding of one lexer step", "DESIGN.md section 6 C08")
 
@@ -129,12 +138,13 @@ chk("C14", "translation_validation",
     "relational symbolic execution (pysym) + z3", "DESIGN.md section 6 C14")
 
 chk("C05", "translation_validation",
-    "Four stage lemmas: lexer token values (pysym on the token functions + LX-ACCEPT), pydantic-v1 union validation with "
+    "Stage lemmas: lexer token values (pysym on the token functions + LX-ACCEPT), totality and range of the numeric conversions, "
+    "PS-GLUE / LX-DRIVER for what reaches the lexer, pydantic-v1 union validation with "
     "member order/smart_union read from the live classes and a symbolic literal (z3 strings/FP), the real code generator "
     "run symbolically with the literal symbolic (every occurrence a faithful repr/str rendering or a solver query against "
     "Python's literal syntax), and per example literal the compiled routing/returned value over all field values of both sorts.",
     "pydantic acceptance is a model (validated on a corpus per run); repr/str round-trip is CPython's contract; example "
-    "literal list for the run stage; numerals <= 300 digits.",
+    "literal list for the run stage; recorded findings: integer literals beyond CPython's 4300-digit limit, decimal literals beyond binary64.",
     "z3 strings/regex/FP on stage lemmas + symbolic execution (pysym) of generator and generated code", "DESIGN.md section 6 C05")
 
 chk("C13", "translation_validation",
